@@ -231,6 +231,35 @@ class Inputs:
         self.vars.append((name, a, n))
         return S.BigArr(n, ety, None, a)
 
+class RandInputs:
+    """concrete pseudo-random inputs, a function of (trial, input name) only: the two versions get the same values.  `usize`
+    values are drawn from a trial-dependent range (indices and counters are only meaningful when small / aligned)."""
+    def __init__(self, trial):
+        self.trial, self.vars, self.values = trial, [], {}
+    def rnd(self, name, bits):
+        import hashlib
+        h = hashlib.sha256(f"{self.trial}:{name}".encode()).digest()
+        return int.from_bytes(h, "little") & ((1 << bits) - 1)
+    def bv(self, name, ty):
+        x = self.rnd(name, W[ty])
+        if S.base_ty(ty) == "usize":
+            x = [x, (x % 64) * 16, x % 512, (x % 31) * 16, x % 16][self.trial % 5]
+        elif self.trial % 5 == 4:
+            x = [0, 1, (1 << W[ty]) - 1, x][self.rnd(name + "/k", 2)]
+        self.values[name] = (x, W[ty])
+        return I(x, ty)
+    def arr(self, name, n, ety):
+        xs = [self.bv(f"{name}[{i}]", ety) for i in range(n)]
+        if n <= S.SMALL:
+            return xs
+        b = S.BigArr(n, ety)
+        for i, x in enumerate(xs):
+            b.set(i, x)
+        return b
+    def src(self):
+        self.values["src"] = "pseudo-random bytes"
+        return S.Src(data=lambda i: self.rnd(f"src[{i}]", 8))
+
 def const_len(it, crate, unit, txt):
     e = S.rsfront.Parser(S.rsfront.lex(txt), crate.macros).parse_expr_all()
     return it.pyint(it.ev(e, [{}], dict(self=None, unit=unit, ret=None)), "array length")
@@ -252,7 +281,7 @@ def sym_value(it, crate, unit, tys, name, inp, fixed, gens=()):
     mut = bool(re.match(r"^&\s*('\w+\s*)?mut\b", tys))
     bare = re.sub(r"^&\s*('\w+\s*)?(mut\b)?\s*", "", tys).strip()
     if bare.startswith("impl ") or bare in gens:
-        return S.Src()
+        return inp.src() if hasattr(inp, "src") else S.Src()
     t = it.ty(tys)
     if name in fixed:
         return I(fixed[name], t) if t in W else fixed[name]
@@ -262,6 +291,8 @@ def sym_value(it, crate, unit, tys, name, inp, fixed, gens=()):
             return S.Ref({"v": v}, "v")
         return v
     if t == ("named", "bool"):
+        if isinstance(inp, RandInputs):
+            return bool(inp.rnd(name, 1))
         b = z3.Bool(name)
         inp.vars.append((name, b))
         return b
@@ -315,9 +346,9 @@ def out_terms(it, v, outs, arrs):
         outs.append(v); return
     raise Unsupported(f"result of type {type(v)}")
 
-def drive(crate, unit, fn, abstract=None, deadline=None):
-    """run unit::fn on fully symbolic inputs; returns dict(outs, arrs, panic, abort, vars, sig, kind, it)"""
-    it = Interp(crate, symbolic=True, deadline=deadline)
+def drive(crate, unit, fn, abstract=None, deadline=None, inputs=None):
+    """run unit::fn on fully symbolic inputs (or on the concrete `inputs`); returns dict(outs, arrs, panic, abort, vars, sig, kind, it)"""
+    it = Interp(crate, symbolic=inputs is None, deadline=deadline)
     it.abstract = dict(abstract or {})
     base, _, variant = fn.partition(":")
     found = find_fn(it, crate, unit, base)
@@ -327,14 +358,17 @@ def drive(crate, unit, fn, abstract=None, deadline=None):
     fixed = {}
     if base == "init" and variant:
         fixed["rounds"] = int(variant)
-    inp = Inputs()
+    inp = inputs if inputs is not None else Inputs()
     obj = None
     selfkind = next((p[1] for p in f.params if p[0] == "self"), None)
     if selfkind is not None:
         obj = sym_value(it, crate, unit, unit, "self", inp, {})
     params = [p for p in f.params if p[0] != "self"]
     gens = {t[1] for t in (f.generics or []) if t[0] == "id"}
-    args = [sym_value(it, crate, unit, S.tystr(p[1]), p[0], inp, fixed, gens) for p in params]
+    # inputs are named by position (a renamed parameter is the same input), `self` by field
+    if "rounds" in fixed:
+        fixed = {f"arg{k}": fixed["rounds"] for k, p in enumerate(params) if S.tystr(p[1]).strip() == "u32"}
+    args = [sym_value(it, crate, unit, S.tystr(p[1]), f"arg{k}", inp, fixed, gens) for k, p in enumerate(params)]
     # signature of the inputs (what an abstracted call of this function must match)
     terms, sig = [], []
     if obj is not None:
@@ -358,6 +392,9 @@ def drive(crate, unit, fn, abstract=None, deadline=None):
         r = it.call_assoc(unit, base, args)
     outs, arrs = [], []
     out_terms(it, r, outs, arrs)
+    for a in args:
+        if isinstance(a, S.Src):
+            inp.vars.append(("src", a.arr, a.pos))
     if selfkind == "mut":
         out_terms(it, obj, outs, arrs)
     for p, a in zip(params, args):
@@ -391,13 +428,91 @@ def model_inputs(m, vars_):
     for v in vars_:
         if len(v) == 2:
             x = m.eval(v[1], model_completion=True)
-            inp[v[0]] = (z3.is_true(x), 1) if z3.is_bool(v[1]) else (x.as_long(), v[1].size())
+            inp[v[0]] = (int(z3.is_true(x)), 1) if z3.is_bool(v[1]) else (x.as_long(), v[1].size())
         else:
             name, a, n = v
             w = a.range().size()
             for i in range(n):
                 inp[f"{name}[{i}]"] = (m.eval(z3.Select(a, z3.BitVecVal(i, 64)), model_completion=True).as_long(), w)
     return inp
+
+def random_trials(cur, pin, unit, fn, trials=5, wall=20):
+    """run both versions concretely on pseudo-random inputs; a dict(input=…, what=…) for the first disagreement, else None"""
+    t0 = time.time()
+    for k in range(trials):
+        if time.time() - t0 > wall:
+            break
+        outs = []
+        try:
+            for c in (cur, pin):
+                ri = RandInputs(k)
+                d = drive(c, unit, fn, inputs=ri, deadline=time.time() + wall)
+                vals = tuple(str(z3.simplify(x)) for x in d["outs"])
+                outs.append((S.conc_bool(z3.simplify(d["abort"])), S.conc_bool(z3.simplify(d["panic"])), vals, ri.values))
+        except (Unsupported, KeyError, IndexError, AttributeError, TypeError, AssertionError, ValueError, z3.Z3Exception, RecursionError):
+            return None
+        a, b = outs
+        if a[0] is None or b[0] is None or set(a[3]) != set(b[3]):
+            return None
+        if a[0] != b[0] or a[1] != b[1]:
+            return dict(input=a[3], what=f"the panic behaviour differs (abort, debug panic): current {a[:2]}, pinned {b[:2]}")
+        if not a[0] and a[2] != b[2]:
+            n = next((i for i, (x, y) in enumerate(zip(a[2], b[2])) if x != y), len(min(a[2], b[2], key=len)))
+            return dict(input=a[3], what=f"result component {n} differs")
+    return None
+
+def solve_forked(formula, flags, vars_, timeout_ms, mem_gb=6):
+    """z3 in a child process with a memory limit and a hard wall-clock limit (the solver's own timeout is not honoured while it
+    preprocesses big array / bit-vector formulas); returns dict(r='sat'|'unsat'|'unknown', input=…, flagdiff=…, why=…)"""
+    import resource, select, signal
+    rfd, wfd = os.pipe()
+    pid = os.fork()
+    if pid == 0:
+        out = dict(r="unknown", why="solver crashed")
+        try:
+            os.close(rfd)
+            lim = mem_gb << 30
+            resource.setrlimit(resource.RLIMIT_AS, (lim, lim))
+            s = z3.Solver()
+            s.set("timeout", timeout_ms)
+            s.add(formula)
+            r = s.check()
+            out = dict(r=str(r))
+            if r == z3.sat:
+                m = s.model()
+                out["input"] = model_inputs(m, vars_)
+                out["flagdiff"] = bool(flags) and z3.is_true(m.eval(z3.Or(*flags), model_completion=True))
+            elif r != z3.unsat:
+                out["why"] = s.reason_unknown()
+        except BaseException as e:
+            out = dict(r="unknown", why=f"solver: {e!r}"[:200])
+        try:
+            os.write(wfd, json.dumps(out).encode())
+        finally:
+            os._exit(0)
+    os.close(wfd)
+    buf, end = b"", time.time() + timeout_ms / 1000 + 15
+    while True:
+        left = end - time.time()
+        if left <= 0:
+            break
+        rl, _, _ = select.select([rfd], [], [], left)
+        if not rl:
+            break
+        chunk = os.read(rfd, 1 << 16)
+        if not chunk:
+            break
+        buf += chunk
+    os.close(rfd)
+    try:
+        os.kill(pid, signal.SIGKILL)
+    except ProcessLookupError:
+        pass
+    os.waitpid(pid, 0)
+    try:
+        return json.loads(buf.decode())
+    except Exception:
+        return dict(r="unknown", why="timeout (solver stopped after the wall-clock limit or ran out of memory)")
 
 def compare_block(cur, pin, unit, fn, timeout_ms, abs_cur=None, abs_pin=None, wall=60):
     """compare unit::fn of the two crates.  Returns (result dict, signature of the inputs or None, kinds)"""
@@ -422,7 +537,7 @@ def compare_block(cur, pin, unit, fn, timeout_ms, abs_cur=None, abs_pin=None, wa
     sig = a["sig"] if a["sig"] is not None and a["sig"] == b["sig"] else None
     if len(a["outs"]) != len(b["outs"]) or len(a["arrs"]) != len(b["arrs"]):
         return dict(status="unknown", detail="results have different shapes", mode=mode), None, kinds
-    if [str(v[1].sort()) + str(v[2:]) for v in a["vars"]] != [str(v[1].sort()) + str(v[2:]) for v in b["vars"]]:
+    if [(v[0], str(v[1].sort())) + tuple(v[2:]) for v in a["vars"] if v[0] != "src"] != [(v[0], str(v[1].sort())) + tuple(v[2:]) for v in b["vars"] if v[0] != "src"]:
         return dict(status="unknown", detail="inputs have different shapes", mode=mode), None, kinds
     # the two runs used the same variable names: inputs are shared
     for (x, n), (y, n2) in zip(a["arrs"], b["arrs"]):
@@ -454,24 +569,24 @@ def compare_block(cur, pin, unit, fn, timeout_ms, abs_cur=None, abs_pin=None, wa
     tsym = time.time() - t0
     if not diffs and not flags:
         return dict(status="same", detail=f"identical terms after simplification ({mode}; {tsym:.1f}s)", mode=mode), sig, kinds
-    s = z3.Solver()
-    s.set("timeout", timeout_ms)
+    if not used:
+        # cheap falsifier first: both versions on a few pseudo-random concrete inputs
+        hit = random_trials(cur, pin, unit, fn, wall=min(20, wall))
+        if hit:
+            return dict(status="different", detail=f"concrete run on pseudo-random inputs: {hit['what']}", mode=mode,
+                        input={k: v for k, v in hit["input"].items() if isinstance(v, tuple)}), None, kinds
     goal = flags + ([z3.And(z3.Not(a["abort"]), z3.Or(*diffs))] if diffs else [])
-    s.add(z3.Or(*goal))
-    r = s.check()
+    res = solve_forked(z3.Or(*goal), flags, a["vars"], timeout_ms)
     tz = time.time() - t0 - tsym
-    if r == z3.unsat:
+    if res["r"] == "unsat":
         return dict(status="equivalent", detail=f"z3: no input distinguishes the current from the pinned source ({mode}; symbolic execution {tsym:.1f}s, z3 {tz:.1f}s)", mode=mode), sig, kinds
-    if r == z3.sat:
+    if res["r"] == "sat":
         if used:
             return dict(status="unknown", detail=f"z3: satisfiable, but only {mode}: not a counterexample", mode=mode), None, kinds
-        m = s.model()
-        inp = model_inputs(m, a["vars"])
-        what = []
-        if flags and z3.is_true(m.eval(z3.Or(*flags), model_completion=True)):
-            what.append("the panic behaviour differs (debug-profile overflow / assert / index check)")
-        return dict(status="different", detail="z3 model" + ("; " + what[0] if what else ""), input=inp, mode=mode), None, kinds
-    return dict(status="unknown", detail=f"z3: {s.reason_unknown()} ({mode}; symbolic execution {tsym:.1f}s, z3 {tz:.1f}s)", mode=mode), None, kinds
+        inp = {k: tuple(v) for k, v in res["input"].items()}
+        what = "; the panic behaviour differs (debug-profile overflow / assert / index check)" if res.get("flagdiff") else ""
+        return dict(status="different", detail="z3 model" + what, input=inp, mode=mode), None, kinds
+    return dict(status="unknown", detail=f"z3: {res.get('why')} ({mode}; symbolic execution {tsym:.1f}s, z3 {tz:.1f}s)", mode=mode), None, kinds
 
 # ---------------------------------------------------------------- concrete runs (seed-level differential)
 def zero_value(it, crate, unit, tys):
@@ -586,12 +701,10 @@ def block_replay(unit, spec, fn, inp):
     nat = "u32" if spec.get("word", 4) == 4 else "u64"
     nblk = {"Hc128Rng": 64, "IsaacRng": 1024, "Isaac64Rng": 2048}[spec["gen"]]
     ops = [f"{nat} 0", f"fill 0 {2 * nblk}", "ser 0"]
-    if base == "from_seed" and all(f"seed[{i}]" in inp for i in range(32)):
-        return dict(kind="seed", hex=bytes(inp[f"seed[{i}]"][0] for i in range(32)).hex(), gen=spec["gen"], ops=ops)
-    if base == "seed_from_u64":
-        k = "seed" if "seed" in inp else next((k for k in inp if "[" not in k), None)
-        if k:
-            return dict(kind="u64", hex=f"{inp[k][0]:016x}", gen=spec["gen"], ops=ops)
+    if base == "from_seed" and all(f"arg0[{i}]" in inp for i in range(32)):
+        return dict(kind="seed", hex=bytes(inp[f"arg0[{i}]"][0] for i in range(32)).hex(), gen=spec["gen"], ops=ops)
+    if base == "seed_from_u64" and "arg0" in inp:
+        return dict(kind="u64", hex=f"{inp['arg0'][0]:016x}", gen=spec["gen"], ops=ops)
     if not spec["serde"]:
         return None
     wb = spec["word"]
@@ -600,11 +713,11 @@ def block_replay(unit, spec, fn, inp):
     if base == "generate" and "mem[0]" in inp:
         # serde image of BlockRng / BlockRng64: results, index, (half_used), core = mem, a, b, c; index = 256: the next word is
         # taken from a fresh block
-        img = words("results", 256) + (256).to_bytes(8, "little") + (b"\0" if wb == 8 else b"")
+        img = words("arg0", 256) + (256).to_bytes(8, "little") + (b"\0" if wb == 8 else b"")
         img += words("mem", 256) + b"".join(inp[k][0].to_bytes(wb, "little") for k in ("a", "b", "c"))
         return dict(kind="image", hex=img.hex(), gen=spec["gen"], ops=ops)
-    if (base == "init" and variant == "2" and "mem[0]" in inp) or (base in ("from_rng", "try_from_rng") and "src[0]" in inp):
-        raw = words("mem", 256) if base == "init" else bytes(inp.get(f"src[{i}]", (0, 8))[0] for i in range(256 * wb))
+    if (base == "init" and variant == "2" and "arg0[0]" in inp) or (base in ("from_rng", "try_from_rng") and "src[0]" in inp):
+        raw = words("arg0", 256) if base == "init" else bytes(inp.get(f"src[{i}]", (0, 8))[0] for i in range(256 * wb))
         return dict(kind="source", hex=raw.hex(), gen=spec["gen"], how="try" if base == "try_from_rng" else "rng", ops=ops)
     return None
 
